@@ -975,6 +975,10 @@ func main() {
 	// --- spending conditions (C12/C13): pinned bodies of the functions Model.Spend mirrors ---
 	emitSpendFacts(w, nut11P, nut14P, mintP)
 
+	// --- C11 / C10 / C09: glue of the derivation functions (see emitSpecFacts below) ---
+	emitSpecFacts(w, cryptoP, nut13P, walletP)
+	emitHardenedKeyStart(w, repo)
+
 	w("\nend Gonuts.Gen\n")
 
 	if outPath == "" {
@@ -1173,4 +1177,313 @@ func emitSpendFacts(w func(string, ...any), nut11P, nut14P, mintP *pkg) {
 		}
 		w("]\n")
 	}
+}
+
+// ---------------------------------------------------------------------------------------------
+// C11 (derivations match the Cashu spec), reused by C10 / C09: the glue around the library calls in
+// crypto/bdhke.go HashToCurve, crypto/keyset.go DeriveKeysetId / DeriveKeysetPath / GenerateKeyset,
+// cashu/nuts/nut13 and wallet/p2pk.go, as canonical source text (go/printer) plus the numeric value
+// of the constant expressions.  Gonuts/Tie/Spec.lean equates each with what Gonuts/Spec/* uses.
+// Everything below is additive and only used by emitSpecFacts.
+// ---------------------------------------------------------------------------------------------
+
+// srcText renders a node as gofmt would print it, on one line.
+func srcText(n ast.Node) string {
+	if n == nil {
+		return ""
+	}
+	var buf bytes.Buffer
+	if err := printer.Fprint(&buf, fset, n); err != nil {
+		return "<unprintable>"
+	}
+	return strings.Join(strings.Fields(buf.String()), " ")
+}
+
+// assignedExprs returns the source text of every expression assigned to (or declared as) `name` inside fd.
+func assignedExprs(fd *ast.FuncDecl, name string) []string {
+	var out []string
+	if fd == nil || fd.Body == nil {
+		return []string{"<missing>"}
+	}
+	ast.Inspect(fd.Body, func(n ast.Node) bool {
+		switch x := n.(type) {
+		case *ast.AssignStmt:
+			for i, l := range x.Lhs {
+				if id, ok := l.(*ast.Ident); ok && id.Name == name {
+					if len(x.Rhs) == len(x.Lhs) {
+						out = append(out, srcText(x.Rhs[i]))
+					} else if len(x.Rhs) == 1 {
+						out = append(out, srcText(x.Rhs[0]))
+					}
+				}
+			}
+		case *ast.ValueSpec:
+			for i, id := range x.Names {
+				if id.Name == name {
+					t := ""
+					if x.Type != nil {
+						t = srcText(x.Type) + " = "
+					}
+					if i < len(x.Values) {
+						out = append(out, t+srcText(x.Values[i]))
+					}
+				}
+			}
+		}
+		return true
+	})
+	return out
+}
+
+// callArgsSrc is callArgs with go/printer text (keeps `x...`, composite literal elements, spacing).
+func callArgsSrc(fd *ast.FuncDecl, callee string) [][]string {
+	var out [][]string
+	if fd == nil || fd.Body == nil {
+		return [][]string{{"<missing>"}}
+	}
+	ast.Inspect(fd.Body, func(n ast.Node) bool {
+		ce, ok := n.(*ast.CallExpr)
+		if !ok {
+			return true
+		}
+		if srcText(ce.Fun) == callee {
+			args := make([]string, len(ce.Args))
+			for i, a := range ce.Args {
+				args[i] = srcText(a)
+				if i == len(ce.Args)-1 && ce.Ellipsis.IsValid() {
+					args[i] += "..."
+				}
+			}
+			out = append(out, args)
+		}
+		return true
+	})
+	return out
+}
+
+// forHeaders returns "init; cond; post" of every for statement in fd.
+func forHeaders(fd *ast.FuncDecl) []string {
+	var out []string
+	if fd == nil || fd.Body == nil {
+		return []string{"<missing>"}
+	}
+	ast.Inspect(fd.Body, func(n ast.Node) bool {
+		if fs, ok := n.(*ast.ForStmt); ok {
+			out = append(out, srcText(fs.Init)+"; "+srcText(fs.Cond)+"; "+srcText(fs.Post))
+		}
+		return true
+	})
+	return out
+}
+
+// returnsOf returns the text of the results of every return statement of fd itself (closures excluded)
+// and, separately, of the function literals inside it.
+func returnsOf(fd *ast.FuncDecl) (own []string, lits []string) {
+	if fd == nil || fd.Body == nil {
+		return []string{"<missing>"}, nil
+	}
+	var walk func(n ast.Node, inLit bool)
+	walk = func(n ast.Node, inLit bool) {
+		ast.Inspect(n, func(m ast.Node) bool {
+			switch x := m.(type) {
+			case *ast.FuncLit:
+				if m != n {
+					walk(x.Body, true)
+					return false
+				}
+			case *ast.ReturnStmt:
+				rs := make([]string, len(x.Results))
+				for i, r := range x.Results {
+					rs[i] = srcText(r)
+				}
+				if inLit {
+					lits = append(lits, strings.Join(rs, ", "))
+				} else {
+					own = append(own, strings.Join(rs, ", "))
+				}
+			}
+			return true
+		})
+	}
+	walk(fd.Body, false)
+	return
+}
+
+// specConst evaluates the integer constant expressions that occur in the glue: literals, + - * << and
+// parentheses (evalConst), and math.Exp2(k) for a constant k.
+func specConst(e ast.Expr) (int64, bool) {
+	if ce, ok := e.(*ast.CallExpr); ok && len(ce.Args) == 1 {
+		switch srcText(ce.Fun) {
+		case "math.Exp2":
+			if k, ok := specConst(ce.Args[0]); ok && k >= 0 && k < 62 {
+				return 1 << uint(k), true
+			}
+			return 0, false
+		case "uint32", "uint64", "int":
+			return specConst(ce.Args[0])
+		}
+	}
+	v, ok := evalConst(e, constEnv{})
+	if !ok {
+		return 0, false
+	}
+	i, ok := v.(int64)
+	return i, ok
+}
+
+// firstExpr finds the first expression node in fd whose source text equals want.
+func firstExpr(fd *ast.FuncDecl, want string) ast.Expr {
+	var found ast.Expr
+	if fd == nil || fd.Body == nil {
+		return nil
+	}
+	ast.Inspect(fd.Body, func(n ast.Node) bool {
+		if found != nil {
+			return false
+		}
+		if e, ok := n.(ast.Expr); ok && srcText(e) == want {
+			found = e
+			return false
+		}
+		return true
+	})
+	return found
+}
+
+func emitSpecFacts(w func(string, ...any), cryptoP, nut13P, walletP *pkg) {
+	w("\n/-! ## C11: glue of hash_to_curve, keyset id, keyset paths, NUT-13, P2PK key (canonical source text) -/\n")
+	strs := func(lean string, xs []string) { w("def %s : List String := %s\n", lean, leanStrList(xs)) }
+	args := func(lean string, rows [][]string) {
+		w("def %s : List (List String) := [", lean)
+		for i, r := range rows {
+			if i > 0 {
+				w(", ")
+			}
+			w("%s", leanStrList(r))
+		}
+		w("]\n")
+	}
+	num := func(lean string, fd *ast.FuncDecl, exprText string) {
+		e := firstExpr(fd, exprText)
+		if e == nil {
+			w("def %s : String := \"<missing %s>\"\n", lean, exprText)
+			return
+		}
+		v, ok := specConst(e)
+		if !ok {
+			w("def %s : String := \"<not constant %s>\"\n", lean, exprText)
+			return
+		}
+		w("def %s : Nat := %d\n", lean, v)
+	}
+
+	// crypto/bdhke.go HashToCurve
+	h2c := findFunc(cryptoP, "", "HashToCurve")
+	args("spec_h2c_sha256Args", callArgsSrc(h2c, "sha256.Sum256"))
+	strs("spec_h2c_counterDecl", assignedExprs(h2c, "counter"))
+	strs("spec_h2c_for", forHeaders(h2c))
+	num("spec_h2c_bound", h2c, "math.Exp2(16)")
+	strs("spec_h2c_counterBuf", assignedExprs(h2c, "c"))
+	args("spec_h2c_putLE", callArgsSrc(h2c, "binary.LittleEndian.PutUint32"))
+	args("spec_h2c_putBE", callArgsSrc(h2c, "binary.BigEndian.PutUint32"))
+	strs("spec_h2c_pkHash", assignedExprs(h2c, "pkHash"))
+	args("spec_h2c_parse", callArgsSrc(h2c, "secp256k1.ParsePubKey"))
+	// the blind / sign / unblind formulas are library calls; their operands:
+	args("spec_blind_add", callArgsSrc(findFunc(cryptoP, "", "BlindMessage"), "secp256k1.AddNonConst"))
+	args("spec_sign_mult", callArgsSrc(findFunc(cryptoP, "", "SignBlindedMessage"), "secp256k1.ScalarMultNonConst"))
+	args("spec_unblind_neg", callArgsSrc(findFunc(cryptoP, "", "UnblindSignature"), "rNeg.NegateVal"))
+	args("spec_unblind_mult", callArgsSrc(findFunc(cryptoP, "", "UnblindSignature"), "secp256k1.ScalarMultNonConst"))
+	args("spec_unblind_add", callArgsSrc(findFunc(cryptoP, "", "UnblindSignature"), "secp256k1.AddNonConst"))
+	hashE := findFunc(cryptoP, "", "HashE")
+	args("spec_hashE_hex", callArgsSrc(hashE, "hex.EncodeToString"))
+	args("spec_hashE_sha256", callArgsSrc(hashE, "sha256.Sum256"))
+
+	// crypto/keyset.go DeriveKeysetId
+	kid := findFunc(cryptoP, "", "DeriveKeysetId")
+	own, lits := returnsOf(kid)
+	strs("spec_keysetId_return", own)
+	strs("spec_keysetId_less", lits)
+	args("spec_keysetId_append", callArgsSrc(kid, "append"))
+	strs("spec_keysetId_hash", assignedExprs(kid, "hash"))
+	args("spec_keysetId_write", callArgsSrc(kid, "hash.Write"))
+	num("spec_keysetId_hexChars", kid, "14")
+
+	// crypto/keyset.go DeriveKeysetPath and GenerateKeyset
+	kp := findFunc(cryptoP, "", "DeriveKeysetPath")
+	args("spec_mintPath_Derive", append(append(callArgsSrc(kp, "key.Derive"), callArgsSrc(kp, "child.Derive")...), callArgsSrc(kp, "unitPath.Derive")...))
+	gk := findFunc(cryptoP, "", "GenerateKeyset")
+	strs("spec_genKeyset_for", forHeaders(gk))
+	strs("spec_genKeyset_amount", assignedExprs(gk, "amount"))
+	args("spec_genKeyset_Derive", callArgsSrc(gk, "keysetPath.Derive"))
+	args("spec_genKeyset_path", callArgsSrc(gk, "DeriveKeysetPath"))
+	args("spec_genKeyset_id", callArgsSrc(gk, "DeriveKeysetId"))
+
+	// cashu/nuts/nut13
+	dkp := findFunc(nut13P, "", "DeriveKeysetPath")
+	strs("spec_nut13_keysetBytes", assignedExprs(dkp, "keysetBytes"))
+	strs("spec_nut13_bigEndian", assignedExprs(dkp, "bigEndianBytes"))
+	strs("spec_nut13_keysetIdInt", assignedExprs(dkp, "keysetIdInt"))
+	num("spec_nut13_modulus", dkp, "(1<<31 - 1)")
+	num("spec_nut13_purpose", dkp, "129372")
+	args("spec_nut13_pathDerive", append(append(callArgsSrc(dkp, "master.Derive"), callArgsSrc(dkp, "purpose.Derive")...), callArgsSrc(dkp, "coinType.Derive")...))
+	ds := findFunc(nut13P, "", "DeriveSecret")
+	db := findFunc(nut13P, "", "DeriveBlindingFactor")
+	args("spec_nut13_secretDerive", append(callArgsSrc(ds, "keysetPath.Derive"), callArgsSrc(ds, "counterPath.Derive")...))
+	args("spec_nut13_rDerive", append(callArgsSrc(db, "keysetPath.Derive"), callArgsSrc(db, "counterPath.Derive")...))
+	strs("spec_nut13_secretBytes", assignedExprs(ds, "secretBytes"))
+	strs("spec_nut13_secret", assignedExprs(ds, "secret"))
+	rown, _ := returnsOf(db)
+	strs("spec_nut13_rReturns", rown)
+
+	// wallet/p2pk.go
+	p2 := findFunc(walletP, "", "DeriveP2PK")
+	args("spec_p2pk_Derive", append(append(append(callArgsSrc(p2, "key.Derive"), callArgsSrc(p2, "purpose.Derive")...),
+		callArgsSrc(p2, "coinType.Derive")...), callArgsSrc(p2, "first.Derive")...))
+}
+
+// emitHardenedKeyStart reads the constant hdkeychain.HardenedKeyStart from the btcutil version that /repo's go.mod
+// pins, in the module cache (the same files the harness is compiled against).  Data only.
+func emitHardenedKeyStart(w func(string, ...any), repo string) {
+	missing := func(why string) { w("def spec_hardenedKeyStart : String := %s\n", leanStr("<missing: "+why+">")) }
+	gomod, err := os.ReadFile(filepath.Join(repo, "go.mod"))
+	if err != nil {
+		missing("go.mod")
+		return
+	}
+	version := ""
+	for _, line := range strings.Split(string(gomod), "\n") {
+		f := strings.Fields(line)
+		for i := 0; i+1 < len(f); i++ {
+			if f[i] == "github.com/btcsuite/btcd/btcutil" {
+				version = f[i+1]
+			}
+		}
+	}
+	if version == "" {
+		missing("btcutil not required")
+		return
+	}
+	var caches []string
+	if c := os.Getenv("GOMODCACHE"); c != "" {
+		caches = append(caches, c)
+	}
+	for _, gp := range filepath.SplitList(os.Getenv("GOPATH")) {
+		caches = append(caches, filepath.Join(gp, "pkg", "mod"))
+	}
+	if h, err := os.UserHomeDir(); err == nil {
+		caches = append(caches, filepath.Join(h, "go", "pkg", "mod"))
+	}
+	for _, c := range caches {
+		dir := filepath.Join(c, "github.com", "btcsuite", "btcd", "btcutil@"+version, "hdkeychain")
+		if _, err := os.Stat(dir); err != nil {
+			continue
+		}
+		env := collectConsts(parseDir(dir))
+		if v, ok := env["HardenedKeyStart"].(int64); ok {
+			w("def spec_hardenedKeyStart : Nat := %d\n", v)
+			w("def spec_btcutilVersion : String := %s\n", leanStr(version))
+			return
+		}
+	}
+	missing("hdkeychain source not in the module cache")
 }
